@@ -9,6 +9,8 @@ ENGINE_A_COMPONENTS = {
              "network transport (in-memory gRPC stream; no sockets)", "goroutine scheduler, select choice, map iteration order, clocks (simrt + testing/synctest)"],
 }
 
+TECH = "deterministic simulation with fault injection: seeded search over schedules and fault sequences, history/white-box oracles"
+
 def A(test, rule, quick=(8, 250, 240), thorough=(16, 6000, 3000), **kw):
     d = {"test": test, "rule": rule, "engine": "A",
          "quick": {"procs": quick[0], "checks": quick[1], "timeout": quick[2]},
@@ -45,4 +47,22 @@ PROPS = {
              "a rejected one must get an error code and leave the whole simulated disk byte-identical, cause no frame at any other client, no push and no id consumption. "
              "Non-trivial = at least one accepted and at least two differently-rejected isolated publishes in the run; distinct = distinct (program hash, schedule hash).",
              probes=["fault.disconnect"], assumptions=COMMON_ASSUME),
+    "C04": A("TestSim_C04",
+             "one evaluation = one simulated run: population as in C01 (1-2 groups/channels, optional p2p, gRPC and long-polling clients mixed), 4-14 messages published by "
+             "everybody in turn, then 3-14 strictly sequential isolated actions: delete with 1-4 generated ranges (unsorted, overlapping, nested, adjacent, touching, duplicated, "
+             "single ids as hi=0/hi=low/hi=low+1, hi beyond the last id, low 0/negative, inverted; soft or hard; by owner, plain member, reader-less member, channel reader), "
+             "{get data} and {get del} with absent/zero/inverted/beyond-last since/before/limit, publish, unsubscribe/resubscribe, own mode change (dropping/regaining R or D), "
+             "and a full reload of the topic (everybody leaves, 4 s idle-out, come back). An exact ledger (messages, hard-deleted set, per-user soft-deleted sets, delete transactions) "
+             "is compared after every accepted delete with what every user can see on the simulated disk, and with every history / deletion-log answer. "
+             "Non-trivial = a run with an accepted delete list of at least 2 entries followed by a checked {get data}; distinct = distinct (program hash, schedule hash).",
+             probes=["c04.reload"], assumptions=COMMON_ASSUME + ["which delete lists are valid is the server's decision (400 vs 200); only negative, inverted and beyond-last-low entries are required to be refused",
+                                                                "row limits of {get del} are not modelled; the gRPC codec carries neither get.del options nor integer ctrl params, those are checked on long-polling clients only"]),
+}
+
+NOT_APPLICABLE = {
+    "C20": "pure functions of one input (id codecs, name spellings, JSON<->protobuf converters): no schedule, clock, fault, crash point or second party for a simulator to decide; see DESIGN.md section 6",
+}
+
+LEVEL_TEXT = {
+    "default": "Seeded deterministic simulation of the whole server (real hub/topic/session code on a token scheduler; simulated disk, clock, transports) with the property's oracle evaluated on every run. Sampling, not enumeration: a clean batch is evidence over the schedules, fault positions and request histories drawn, not a proof.",
 }
